@@ -22,7 +22,7 @@ func (c *Ctx) ruleHashedValue() {
 			if len(r.Results) == 0 {
 				continue
 			}
-			for _, v := range phiInputs(r.Results[0]) {
+			for _, v := range phiInputs(resultOf(r, 0)) {
 				base, ok := isFieldLoadNamed(v, "StorageValue")
 				if !ok || !isNodePtr(base.Type()) {
 					continue
